@@ -24,6 +24,8 @@
  * actions   errno:<E>   fail with errno E (spawn: return E)
  *           short:<N>   transfer only N bytes (read/write; N < count)
  *           eintr:<R>   fail with EINTR R times in a row, then proceed
+ *           crash:<N>   the process dies (SIGKILL) at this call; for a write,
+ *                       after N bytes of it reached the file (a torn write)
  *
  * The constructor removes LD_PRELOAD and all VERIF_SIM_* variables from the
  * environment, so child processes (lli, clang, the stub backend) run
@@ -35,6 +37,7 @@
 #include <dlfcn.h>
 #include <errno.h>
 #include <fcntl.h>
+#include <signal.h>
 #include <spawn.h>
 #include <stdarg.h>
 #include <stdint.h>
@@ -55,8 +58,8 @@ static const char *class_names[C_NCLASS] = {
 	"open", "read", "fwrite", "pwrite", "out", "err", "mkdir", "pipe",
 	"spawn", "wait" };
 
-enum { A_ERRNO, A_SHORT, A_EINTR };
-static const char *action_names[] = { "errno", "short", "eintr" };
+enum { A_ERRNO, A_SHORT, A_EINTR, A_CRASH };
+static const char *action_names[] = { "errno", "short", "eintr", "crash" };
 
 #define MAX_PLAN 32
 struct plan_entry {
@@ -181,7 +184,7 @@ static void parse_plan(const char *s)
 			e->cls = class_by_name(f[0], strlen(f[0]));
 			e->idx = atol(f[1]);
 			e->action = -1;
-			for (int a = 0; a < 3; a++)
+			for (int a = 0; a < 4; a++)
 				if (!strcmp(f[2], action_names[a]))
 					e->action = a;
 			e->arg = nf > 3 ? atol(f[3]) : 0;
@@ -273,6 +276,15 @@ static void fire(struct plan_entry *e)
 	      action_names[e->action], e->arg);
 }
 
+static void crash_now(struct plan_entry *e)
+{
+	fire(e);
+	trace("X crash");
+	syscall(SYS_kill, syscall(SYS_getpid), SIGKILL);
+	for (;;)
+		syscall(SYS_pause);
+}
+
 static int is_system_path(const char *p)
 {
 	static const char *pfx[] = { "/proc/", "/sys/", "/etc/", "/usr/", "/lib/",
@@ -359,6 +371,8 @@ static int do_open(int dirfd, const char *path, int flags, mode_t mode, const ch
 	int counted = armed && path && !is_system_path(path);
 	if (counted) {
 		struct plan_entry *e = plan_lookup(C_OPEN);
+		if (e && e->action == A_CRASH)
+			crash_now(e);
 		if (e) {
 			fire(e);
 			if (e->action == A_EINTR) {
@@ -513,6 +527,11 @@ ssize_t write(int fd, const void *buf, size_t count)
 	struct plan_entry *e = plan_lookup(cls);
 	size_t want = count;
 	int quiet = (cls == C_OUT || cls == C_ERR) && !trace_out_err;
+	if (e && e->action == A_CRASH) {
+		if (e->arg > 0)
+			syscall(SYS_write, fd, buf, (size_t)e->arg < count ? (size_t)e->arg : count);
+		crash_now(e);
+	}
 	if (e) {
 		if (e->action == A_EINTR) {
 			fire(e);
@@ -551,6 +570,8 @@ int mkdir(const char *path, mode_t mode)
 	if (!armed)
 		return (int)syscall(SYS_mkdir, path, mode);
 	struct plan_entry *e = plan_lookup(C_MKDIR);
+	if (e && e->action == A_CRASH)
+		crash_now(e);
 	if (e && e->action == A_ERRNO) {
 		fire(e);
 		trace("T mkdir %ld %s = -%ld", counters[C_MKDIR], path, e->arg);
@@ -602,6 +623,8 @@ static int do_spawn(int use_path, pid_t *pid, const char *file,
 {
 	if (armed) {
 		struct plan_entry *e = plan_lookup(C_SPAWN);
+		if (e && e->action == A_CRASH)
+			crash_now(e);
 		if (e && e->action == A_ERRNO) {
 			fire(e);
 			trace("T spawn %ld %s = -%ld", counters[C_SPAWN], file, e->arg);
@@ -642,6 +665,8 @@ static pid_t do_wait(pid_t pid, int *status, int options, struct rusage *ru)
 {
 	if (armed) {
 		struct plan_entry *e = plan_lookup(C_WAIT);
+		if (e && e->action == A_CRASH)
+			crash_now(e);
 		if (e && e->action == A_EINTR) {
 			fire(e);
 			e->remaining--;
